@@ -1251,6 +1251,45 @@ static void c12_case(uint64_t idx, rng_t *r) {
     }
 }
 
+/* ------------------------------------------------ exhaustive 32-bit entry points */
+/* every 32-bit value through the entry points that take or return uint32_t; --p0 = log2 of the range (32 = all) */
+static void c01_all32(void) {
+    uint64_t total = 1ULL << (g_param[0] ? g_param[0] : 32);
+    uint64_t lo = total / g_nshards * g_shard, hi = g_shard + 1 == g_nshards ? total : total / g_nshards * (g_shard + 1);
+    uint8_t buf[16], rb[16];
+    uint64_t n = 0;
+    for (uint64_t x = lo; x < hi; x++) {
+        uint32_t v = (uint32_t)x, o = ~v;
+        g_case = x;
+        int l = varintTaggedPutVarint32(buf, v);
+        int rl = ref_tagged(rb, v);
+        if (l != rl || memcmp(buf, rb, (size_t)rl) || varintTaggedGetVarint32(buf, &o) != l || o != v) {
+            FAIL("tagged", "PutVarint32/GetVarint32", "value-mismatch", "v=%u len %d/%d decoded %u", v, l, rl, o);
+            break;
+        }
+        l = varintChained_putVarint32(buf, v);
+        rl = ref_chained(rb, v);
+        uint32_t o2 = ~v, o3 = ~v;
+        int g1 = (buf[0] & 0x80) ? (int)varintChainedGetVarint32(buf, &o2) : (o2 = buf[0], 1);
+        int g2 = varintChained_getVarint32(buf, o3);
+        if (l != rl || memcmp(buf, rb, (size_t)rl) || g1 != l || g2 != l || o2 != v || o3 != v) {
+            FAIL("chained", "_putVarint32/GetVarint32", "value-mismatch", "v=%u len %d/%d decoded %u %u", v, l, rl, o2, o3);
+            break;
+        }
+        l = varintChainedSimpleEncode32(buf, v);
+        rl = ref_chained_simple(rb, v);
+        o2 = o3 = ~v;
+        if (l != rl || memcmp(buf, rb, (size_t)rl) || varintChainedSimpleDecode32(buf, &o2) != l || varintChainedSimpleDecode32Fallback(buf, &o3) != l || o2 != v || o3 != v) {
+            FAIL("chainedSimple", "Encode32/Decode32", "value-mismatch", "v=%u len %d/%d decoded %u %u", v, l, rl, o2, o3);
+            break;
+        }
+        n++;
+    }
+    stat_add("c01_exhaustive_32bit_values", n);
+    stat_add("distinct_cases", n);
+    finish_run(n);
+}
+
 /* ================================================================ cases */
 static void scalar_case(uint64_t idx, rng_t *r) {
     uint64_t g = idx * g_nshards + g_shard;
@@ -1292,6 +1331,10 @@ int main(int argc, char **argv) {
             c01_constant_arguments();
         }
         CASE_LOOP(scalar_case);
+    } else if (!strcmp(g_mode, "c01x32")) {
+        MODE = 1, PROP = "C01";
+        c01_all32();
+        return 0;
     } else if (!strcmp(g_mode, "c04")) {
         MODE = 4, PROP = "C04";
 #if !defined(VARINT_SPLIT_FULL_USE_MAXIMUM_RANGE) && !defined(VARINT_SPLIT_FULL_NO_ZERO_USE_MAXIMUM_RANGE)
